@@ -41,6 +41,10 @@ def install() -> None:
     logging.getLogger("asyncio").setLevel(logging.CRITICAL + 1)
 
 
-def set_debug(flag: bool) -> None:
+def set_debug(flag: bool, quiet_modules: tuple[str, ...] = ()) -> None:
+    """flag: level of the package logger.  quiet_modules: sub-loggers kept at INFO although the package is at DEBUG (`aioesphomeapi: debug` with
+    `aioesphomeapi.connection: info` is how a user silences one chatty module) - the package's loggers then disagree about DEBUG."""
     install()
     logging.getLogger("aioesphomeapi").setLevel(logging.DEBUG if flag else logging.WARNING)
+    for name in ("aioesphomeapi.connection", "aioesphomeapi._frame_helper.base", "aioesphomeapi.reconnect_logic", "aioesphomeapi.client"):
+        logging.getLogger(name).setLevel(logging.INFO if (flag and name in quiet_modules) else logging.NOTSET)
